@@ -38,7 +38,51 @@ META["C05"] = dict(
     technique="Coq proof by structural induction (commutative-monoid homomorphism) + translated kernels (Tie) + model-vs-implementation differential evaluated by vm_compute",
 )
 
+_DBNOTE = ("Modelled, not verified: insert.go/table.go/row_store.go/bytetree/core.Group/Flatten/planner.planLocal through the "
+           "specification model Model/DB.v (reference aggregator over raw points), tied to the real zenodb.DB by the correspondence "
+           "on every run; goexpr predicates are an oracle column computed with the real goexpr; values are small integers so float "
+           "arithmetic is exact. Retention is excluded here (C14).")
+META["C01"] = dict(
+    text=("Theorems (Props/C01.v): a timestamp falls into exactly one period, the one ending at the least multiple of the "
+          "resolution >= ts; the reference result has exactly one row per (group key, period); the points aggregated into a row "
+          "are exactly the accepted points of that key and period, each once, in arrival order; every field read from the "
+          "accumulated state equals its declared aggregate over exactly those points (all expression trees); kernels tied to the "
+          "source. The row store model (Model/Store.v: memstore/filestore/flush/merge) is proved to refine this reference for "
+          "every flush schedule in Proofs/StoreP.v. Correspondence: SELECT * on the real DB vs the reference for generated "
+          "schemas, points and flush/reopen schedules."),
+    design_ref="DESIGN.md section 4 / C01", note=_DBNOTE,
+    technique="Coq proof (period arithmetic, grouping invariants, get = declared aggregate, store refinement) + real DB vs specification model differential evaluated by vm_compute")
+META["C06"] = dict(
+    text=("Theorems (Props/C06.v): each native period lies in exactly one output period (T-P, T] anchored at until, output periods are "
+          "disjoint; every accepted in-window point contributes to exactly one output row and the row is built from exactly those "
+          "points; re-aggregating merged partial states gives the aggregate of the raw points (AVG recomputed from merged "
+          "count/total). Correspondence: grouped queries on the real DB vs the reference."),
+    design_ref="DESIGN.md section 4 / C06", note=_DBNOTE,
+    technique="Coq proof (period partition, grouping invariants, merge homomorphism) + real DB vs specification model differential")
+META["C07"] = dict(
+    text=("Theorems (Props/C07.v): a point contributes only if its native period lies in (asOf', until'] and then to the output "
+          "period containing it; nothing outside contributes; Truncate keeps exactly the periods in (asOf, until] unchanged; the "
+          "default window is (now - retention, now] rounded to the resolution. Correspondence: ASOF/UNTIL queries on the real DB."),
+    design_ref="DESIGN.md section 4 / C07", note=_DBNOTE,
+    technique="Coq proof (window arithmetic, truncate denotation) + real DB vs specification model differential")
+META["C08"] = dict(
+    text=("Theorems (Props/C08.v): a query with WHERE equals the same query over only the points whose stored key satisfies the "
+          "predicate (rows and groups). Correspondence: WHERE queries on the real DB with the predicate evaluated by the real goexpr "
+          "as an oracle. HAVING / IN-subquery / FROM-subquery: correspondence being extended; not yet covered by a theorem."),
+    design_ref="DESIGN.md section 4 / C08", note=_DBNOTE + " PARTIAL: HAVING and subqueries are not yet in the model.",
+    technique="Coq proof (filter commutes with grouping) + real DB vs specification model differential with a goexpr oracle")
+
+META["C03"] = dict(
+    text=("Theorems (Props/C03.v): for the row-store model (memstore/filestore, flush with merge, truncation and raw pass-through) two "
+          "histories with the same inserts read the same for every key and period whatever flushes separate them; right after a "
+          "flush a disk-only reader equals the memstore-inclusive one; merging the two sides of any split of the points gives the "
+          "state of all points; the state read is the one accumulated from exactly the points of that key and period. "
+          "Correspondence: the real DB under 5 kinds of flush/reopen schedules, all/some fields, memstore on/off after a flush, vs the "
+          "schedule-independent reference."),
+    design_ref="DESIGN.md section 4 / C03", note=_DBNOTE + " The store model covers one column; per-field independence, sorted flushes (emsort) and memory-pressure flushes are covered by correspondence only / not at all respectively.",
+    technique="Coq proof (store refinement by induction over operation lists, StoreP.v) + real DB under generated schedules vs specification model")
+
 NOT_APPLICABLE = [
     {"property_id": p, "reason": _PENDING}
-    for p in ["C01", "C02", "C03", "C04", "C06", "C07", "C08", "C10", "C11", "C12", "C13", "C14", "C15", "C16", "C17", "C18", "C19", "C20"]
+    for p in ["C02", "C04", "C10", "C11", "C12", "C13", "C14", "C15", "C16", "C17", "C18", "C19", "C20"]
 ]
